@@ -239,7 +239,18 @@ def one_case(ctx, rng):
         inner=rng.choice(['single', 'mixed']),
         hints=rng.random() < 0.3)
     k = rng.choice([1, 2, 2, 3, 3, 4, 6])
-    sc = grammar.make_script(rng, None, nstmts=k, layout=layout)
+    if rng.random() < 0.12:
+        # scripts rich in statements that touch the splitter's block state:
+        # transaction control, DDL with IF [NOT] EXISTS, CREATE ...
+        gen = grammar.Gen(rng)
+        k = rng.choice([3, 4, 5, 6])
+        stmts = [gen.statement(rng.choice(
+            ['transaction', 'transaction', 'create_table', 'create_table',
+             'drop', 'create_index', 'create_view', 'create_table_as',
+             'select', 'insert', 'update'])) for _ in range(k)]
+        sc = grammar.Script(stmts, layout, rng)
+    else:
+        sc = grammar.make_script(rng, None, nstmts=k, layout=layout)
     case = {'text': sc.text, 'k': k,
             'stmt_spans': sc.stmt_spans}
     pos = check_extents(rec, sc, case)
